@@ -192,6 +192,24 @@ pub fn render_flow_scalar(t: &str, style: FStyle, ctx: FlowCtx, r: &mut Rng, fol
                 FStyle::Double => foldable && can_fold && r.chance(1, 2),
                 _ => true,
             };
+            // double-quoted only: an escaped line break followed by `run` empty lines yields
+            // exactly `run` line feeds (s-double-escaped: the break itself is not content, each
+            // following empty line is); blanks before the backslash are content, blanks after the
+            // last break are dropped
+            if style == FStyle::Double && !use_fold && can_fold && st > 0 && (i >= v.len() || !is_blank(v[i])) && r.chance(1, 2) {
+                out.push('\\');
+                out.push('\n');
+                for _ in 0..run {
+                    if r.chance(1, 4) {
+                        for _ in 0..r.below(ctx.cont_min + 2) {
+                            out.push(' ');
+                        }
+                    }
+                    out.push('\n');
+                }
+                indent(r, &mut out, v.get(i).copied());
+                continue;
+            }
             if use_fold {
                 // optional trailing blanks before the break are dropped by folding
                 if r.chance(1, 4) {
